@@ -3,7 +3,7 @@ import ast
 from ..fn import World
 from ..index import AnalysisError, dotted
 from ..astutil import text, short, endswith, calls_in, walk_no_nested
-from ._h_F import ifn, Res, res_of, atoms, sole_arg
+from ._h_F import ifn, Res, res_of, atoms, sole_arg, need
 
 from . import _c22_idem
 
@@ -84,6 +84,7 @@ def r1_totality(run, w):
         r.norm(a.args[0], node.id) == p and endswith(dotted(a.args[1]), "RaisedException")
   passthrough = [n for (n, v) in r.returns() if text(v) == p and r.known(n.id, is_error, True)]
   conv = [(n, c) for (n, c, nm) in fn.calls(r.cfg) if nm == "self.do_convert"]
+  need(conv, "the call of self.do_convert", fn)
   ok = bool(passthrough) and bool(conv) and all(r.known(n.id, is_error, False) for (n, c) in conv)
   run.ob(R1, fn.qualname, "if isinstance(value, RaisedException): return value",
          "error objects pass through conversion unchanged", ok, fi=fn.fi)
@@ -119,8 +120,8 @@ def r1_totality(run, w):
         continue
       else:
         raise AnalysisError("convert(): alt-text expression not understood: %s" % short(leaf))
-  if not alt and trys:
-    ok = False
+  if trys:
+    need(alt, "what convert() returns after a failed conversion", fn)
   run.ob(R1, fn.qualname, "except Exception: return str(value) / safe_repr(value)",
          "the alt-text of a rejected value is its plain rendering (str / repr), so converting "
          "it again cannot succeed where the first conversion failed differently", ok,
@@ -383,6 +384,14 @@ class Tagger(object):
         return {"list"}
       if d and d.endswith("RecordList"):
         return {"RecordList"}
+      if d in ("dict", "dict.fromkeys", "OrderedDict", "collections.OrderedDict"):
+        return {"dict"}
+      if d in ("set", "frozenset"):
+        return {"set"}
+      if d in ("bytes", "bytearray"):
+        return {"bytes"}
+      if d in ("map", "filter", "zip", "iter", "reversed", "enumerate", "range", "complex"):
+        return {"object:" + d}
       if isinstance(e.func, ast.Attribute):
         if e.func.attr == "decode":
           return {"str"}
@@ -407,7 +416,8 @@ class Tagger(object):
           for t in tg:
             out |= self.fn_tags(t, depth)
           return out
-      return {"any"}
+      # what this call returns could not be looked up: undecided rather than "anything"
+      return {"unknown"}
     if isinstance(e, ast.Name):
       return self.name_tags(e.id, fi, nid, facts, depth)
     return {"any"}
@@ -436,6 +446,11 @@ def r2_tags(run, w):
         elif "int" in eff:
           eff.add("shortint")
         extra = tags - eff - {"str"}
+        if extra == {"unknown"} or (extra and "unknown" in extra and
+                                    not (extra - {"unknown", "any"})):
+          raise AnalysisError("%s: the type of the value returned by %s could not be inferred"
+                              % (dc.qualname, short(v, 60)))
+        extra = extra - {"unknown"}
         ok = not extra
         why = None if ok else "may return %s; is_right_type accepts %s" % (
           ",".join(sorted(extra)), ",".join(sorted(accept)))
